@@ -11,6 +11,12 @@ round-trip driver use) and checked three ways:
       `with` block (or declared context) that encloses the corresponding node in the source text
       (vlib.c12_oracle walks Python's `ast` of the text and the core tree in lock-step).
 
+A second layer (vlib.c12_coregen) generates FPCore TEXT that does not come from the compiler (let / let* swaps,
+while / while* and for / for* with carried variables that read each other, full and partial annotations), parses it
+with titanfp, reads it back with `Function.from_fpcore` and compares the result with a reference evaluator written
+from the FPCore 2.0 standard (exact rationals + independent rounding oracle) AND with titanfp; a verdict needs the
+two references to agree.
+
 (b) and (c) are violations on their own.  A disagreement in (a) is a violation only when (b) or (c) confirms
 it; otherwise it is counted as `titanfp-only` (titanfp is a third-party evaluator with quirks of its own).
 """
@@ -41,7 +47,10 @@ RULE = ('Programs: type-directed generator of FPy source text restricted to the 
         'vectors representable in its top-level context.  Checked: (a) titanfp Interpreter on the emitted core vs f(*args), '
         '(b) Function.from_fpcore(core)(*args) vs f(*args), (c) node-by-node annotation check of the emitted core against the '
         'source text.  Non-trivial = the source has >= 2 distinct contexts and a rounded node after an inner `with` block, or a '
-        'loop with >= 2 carried variables; distinct by (source hash, input index).')
+        'loop with >= 2 carried variables; distinct by (source hash, input index).  Core layer: generated FPCore text (let/let* with '
+        'rebinding, while/while*/for/for* with >= 2 mutually dependent carried variables, nested full/partial `!` annotations, if, array '
+        'result) read back with from_fpcore vs a standard-based exact reference evaluator and titanfp; non-trivial = has a multi-binding '
+        'let, a loop or a partial annotation.')
 ASSUMPTIONS = [
     'titanfp.arithmetic.mpmf.Interpreter is the reference FPCore evaluator (the one the repository tests use); it rounds arguments '
     'to the core\'s top-level context, so arguments are drawn representable in it; its own failures (no `real` precision, no `wrap` '
@@ -52,10 +61,16 @@ ASSUMPTIONS = [
     'from the FPCore 2.0 standard; `fp.INTEGER` is MPFixedContext(-1, RTZ) as documented.',
     'A function without a declared context called from Python runs under binary64/nearestEven (FPCore default = FPy default).',
     'The CPU-time guard (6 s of CPU per evaluation; programs take milliseconds) only classifies a read-back that no longer terminates.',
+    'Core layer: FPCore 2.0 semantics assumed are: let/while/for bind and update in parallel (all right-hand sides see the previous '
+    'values), let*/while*/for* sequentially; loop inits are evaluated before the loop (for: before the index is bound); an annotation '
+    'updates the properties it names and inherits the rest; literals are rounded under the properties in force, variables are not; '
+    'IEEE overflow follows the rounding direction.  A violation is reported only when titanfp AND the standard-based reference agree '
+    'with each other and differ from the read-back; where they disagree (titanfp overflows to infinity under directed rounding) the '
+    'case is counted as core:references-disagree (disagreements_checked) with no verdict.  A core the reader refuses is a counted skip.',
     'List aliasing + mutation (ys = xs; ys[0] = v) is outside the stated subset and is not generated: FPCore has no mutable state.',
 ]
 EXHAUSTIVE = {'quick': False, 'thorough': False}
-FLOORS = {'nt:ctx-reorder': 0.15, 'nt:carried>=2': 0.08, 'a:agree': 0.3, 'b:agree': 0.5}
+FLOORS = {'nt:ctx-reorder': 0.15, 'nt:carried>=2': 0.08, 'a:agree': 0.3, 'b:agree': 0.35, 'core:agree': 0.25, 'nt:core': 0.2}
 
 N_INPUTS = 5
 
